@@ -4770,7 +4770,8 @@ def container_script_repr(container,imports,prefix,settings):
     if isinstance(container,list):
         d1,d2='[',']'
     elif isinstance(container,tuple):
-        d1,d2='(',')'
+        # a 1-tuple needs a trailing comma to evaluate to a tuple
+        d1,d2='(',(',)' if len(result)==1 else ')')
     else:
         raise NotImplementedError
     rep=d1+','.join(result)+d2
